@@ -136,6 +136,7 @@ var onThread bool     // set per run (single-threaded worker)
 var mainContext bool  // with onThread: the main state keeps a context of its own that is never done
 var threadCancel bool // with mainContext: the thread keeps its derived child context and is cancelled through NewThread's cancel function
 var bare bool         // the program's entry is the first call ever made on the state
+var noCtxFirst bool   // the state starts without a context at all; reattach() attaches the simulated one in mid-run
 var bgFirst bool      // the state starts under context.Background(); the program's reattach() attaches the simulated one
 
 // preRaiseAt > 0: every run of the program (with and without context, fired or not) gets a run-time error injected
@@ -148,7 +149,7 @@ func exec(proto *lua.FunctionProto, o lua.Options, withCtx bool, kind int, at in
 		kind2, at2 = kind, at
 		kind, at = hostapi.VRaise, preRaiseAt
 	}
-	h := hostapi.NewHost(hostapi.Options{LuaOptions: o, Kind: kind, At: at, MaxSteps: maxSteps, WithContext: withCtx, OnThread: onThread, MainContext: mainContext, Bare: bare, BackgroundFirst: bgFirst, ThreadCancelFunc: threadCancel})
+	h := hostapi.NewHost(hostapi.Options{LuaOptions: o, Kind: kind, At: at, MaxSteps: maxSteps, WithContext: withCtx, OnThread: onThread, MainContext: mainContext, Bare: bare, BackgroundFirst: bgFirst, NoContextFirst: noCtxFirst && withCtx, ThreadCancelFunc: threadCancel})
 	h.Kind2, h.At2 = kind2, at2
 	if !bare {
 		// math and channel are needed by some templates
@@ -214,11 +215,17 @@ func (e *Engine) Run(t *core.Tape, cfg *core.Config, st *core.Stats) *core.Viola
 	}
 	// the context may be attached to a thread created from a context-less main state
 	onThread = name != "simlua" && t.Choose(3) == 0
-	bgFirst = false
+	bgFirst, noCtxFirst = false, false
 	if !onThread && strings.Contains(name, "@reattach") && t.Choose(2) == 0 {
 		bgFirst = true
 		name += "+bgfirst"
 		st.Probe("context_attached_over_background")
+		if t.Choose(2) == 0 {
+			// not even context.Background(): the loop that runs the program is the one without context polling
+			noCtxFirst = true
+			name += "+nocontextfirst"
+			st.Probe("context_attached_to_a_state_that_had_none")
+		}
 	}
 	bare = false
 	if !onThread && t.Choose(4) == 0 {
@@ -241,6 +248,26 @@ func (e *Engine) Run(t *core.Tape, cfg *core.Config, st *core.Stats) *core.Viola
 				name += "+cancelfunc"
 				st.Probe("thread_cancelled_through_its_cancel_function")
 			}
+		}
+	}
+	if t.Choose(25) == 0 {
+		// a host function removes the (undone) context in mid-run: nothing observable changes
+		const detachSrc = `local n = 0
+for i = 1, 40 do n = n + i if i == 10 then detach() end if i % 8 == 0 then emit("d", i, n) end end
+local ok, e = pcall(function() local s = 0 for i = 1, 10 do s = s + i end return s end)
+emit("done", n, ok, e)`
+		onThread, mainContext, bare, bgFirst, noCtxFirst, threadCancel, preRaiseAt = false, false, false, false, false, false, 0
+		proto, err := hostapi.Compile(detachSrc)
+		if err != nil {
+			panic(err)
+		}
+		with := exec(proto, hostapi.SmallOptions(), true, hostapi.VNone, 0, 10000)
+		without := exec(proto, hostapi.SmallOptions(), false, hostapi.VNone, 0, 10000)
+		st.Evals += 2
+		st.Probe("context_removed_in_mid_run")
+		if with.out.Escaped != "" || with.out.TopError != without.out.TopError || !sameTrace(with.h.Trace, without.h.Trace) {
+			return core.Violationf("context-changes-behaviour", "a host function removes the attached (never done) context in mid-run: the run ends with error %q escaped %q and %d emits; without a context: error %q and %d emits\nprogram:\n%s",
+				with.out.TopError, with.out.Escaped, len(with.h.Trace), without.out.TopError, len(without.h.Trace), detachSrc)
 		}
 	}
 	o := hostapi.SmallOptions()
